@@ -1,4 +1,4 @@
-"""Bounded stand-in for C04-C06: the parser must not care which Integral type the bytes have."""
+"""Bounded stand-ins for C04-C06: the parser must not care which Integral type the bytes have, nor how a stream is cut into chunks."""
 import enum
 import random
 
@@ -42,4 +42,55 @@ def integral_types(tier, seed, only=None):
                     ok, detail = False, repr(ex)
                 if not ok:
                     fails.append(dict(clause='the messages parsed do not depend on the Integral type of the bytes', inputs=dict(stream=list(st), items_as=conv_name, via=how), detail=detail[:300]))
+    return dict(evaluations=n, distinct_nontrivial=len(seen), failures=fails[:20])
+
+
+@bounded('chunking-of-streams', ('C05',), 'hand-written streams (real-time bytes inside fixed-length messages and inside sysex, undefined status bytes, stray data, '
+         'truncated messages) plus 150 (1500 thorough) random streams of 1..24 bytes; EVERY cut of a stream of <= 9 bytes into consecutive chunks, 40 random cuts otherwise; '
+         'chunks given as bytes / bytearray / list / tuple / generator, a one-byte chunk also through feed_byte; compared with the whole stream fed at once')
+def chunking(tier, seed, only=None):
+    import itertools
+    import mido
+    rng = random.Random(seed)
+    fails, n, seen = [], 0, set()
+    streams = [[0x90, 0x3C, 0xF8, 0x40], [0x90, 0xF8, 0x3C, 0x40], [0xF0, 1, 0xF8, 2, 0xF7], [0xF0, 0xFA, 0xF7], [0xE0, 1, 0xFF, 2, 0xE0, 3, 4],
+               [0xF2, 1, 0xF9, 2], [0xF2, 1, 0xFD, 2, 3], [0xC0, 0xFE, 5, 6], [0x80, 1, 0xF4, 2, 3], [0xF0, 1, 0xF4, 2, 0xF7], [0xF1, 0xF8, 0x10],
+               [0xB0, 7, 0xFB, 0xFC, 100, 8, 9], [0xF8], [0xFF, 0xFE], [0x90, 1, 2, 3, 4], [0xF7, 0xF0, 0xF7], [0xF6, 0xF3, 0xF6, 1]]
+    for _ in range(150 if tier == 'quick' else 1500):
+        streams.append([rng.choice([rng.randrange(256), rng.choice([0xF0, 0xF7, 0xF8, 0xFE, 0x90, 0xC0, 0xF2, 0, 1, 0x7F])]) for _ in range(rng.randrange(1, 25))])
+    kinds = (('bytes', bytes), ('bytearray', bytearray), ('list', list), ('tuple', tuple), ('generator', lambda c: (b for b in c)))
+    for st in streams:
+        want = mido.parse_all(list(st))
+        L = len(st)
+        if L <= 9:
+            cuts = [c for r in range(L) for c in itertools.combinations(range(1, L), r)]
+        else:
+            cuts = [tuple(sorted(rng.sample(range(1, L), rng.randrange(1, min(L, 8))))) for _ in range(40)] + [tuple(range(1, L))]
+        for cut in cuts:
+            bounds = [0] + list(cut) + [L]
+            chunks = [st[a:b] for a, b in zip(bounds, bounds[1:])]
+            for kname, conv in kinds:
+                for single_via_feed_byte in (False, True):
+                    if single_via_feed_byte and not any(len(c) == 1 for c in chunks):
+                        continue
+                    n += 1
+                    seen.add((tuple(st), cut))
+                    try:
+                        p = mido.Parser()
+                        got = []
+                        for i, c in enumerate(chunks):
+                            if single_via_feed_byte and len(c) == 1:
+                                p.feed_byte(c[0])
+                            else:
+                                p.feed(conv(c))
+                            if i % 2:
+                                got.extend(p)          # retrieval interleaved with feeding
+                        got.extend(p)
+                        ok, detail = got == want, '%r instead of %r' % (got[:4], want[:4])
+                    except Exception as ex:      # noqa
+                        ok, detail = False, repr(ex)
+                    if not ok:
+                        fails.append(dict(clause='the messages parsed do not depend on how the stream is cut into chunks',
+                                          inputs=dict(stream=list(st), chunks=[list(c) for c in chunks], chunks_as=kname, one_byte_chunks_via_feed_byte=single_via_feed_byte),
+                                          detail=detail[:300]))
     return dict(evaluations=n, distinct_nontrivial=len(seen), failures=fails[:20])
